@@ -3,7 +3,7 @@ from __future__ import annotations
 
 import numpy as np
 
-from . import corr_api, corr_eig, corr_index, corr_stages
+from . import corr_api, corr_eig, corr_index, corr_sgperm, corr_stages
 from . import oracles as O
 from .gen import crystal
 
@@ -357,7 +357,8 @@ PROPS = {
     },
     "C10": {
         "lean": "SymfcModel.Props.C10", "gen": ["PermTables"],
-        "corr": [{"fn": C.corr_cell_index, "quick": {"n_cases": 9}, "thorough": {"n_cases": 60}}],
+        "corr": [{"fn": C.corr_cell_index, "quick": {"n_cases": 9}, "thorough": {"n_cases": 60}},
+                 {"fn": corr_sgperm.corr_sg_perm, "quick": {"n_cases": 40}, "thorough": {"n_cases": 300}}],
         "oracle": [{"name": "description", "fn": o_description, "quick": {"n": 25}, "thorough": {"n": 100}, "search": {"n": 60}}],
         "known": known_F1,
         "corpus": [{"name": "corpus_F1_order4_rotation", "fn": corpus_F1_rotation}],
@@ -391,7 +392,8 @@ PROPS = {
     "C14": {
         "lean": "SymfcModel.Props.C14", "gen": [],
         "corr": [{"fn": C.corr_cell_index, "quick": {"n_cases": 45}, "thorough": {"n_cases": 300}},
-                 {"fn": S.corr_coset, "quick": {"n_cases": 18}, "thorough": {"n_cases": 120}}],
+                 {"fn": S.corr_coset, "quick": {"n_cases": 18}, "thorough": {"n_cases": 120}},
+                 {"fn": corr_sgperm.corr_sg_perm, "quick": {"n_cases": 60}, "thorough": {"n_cases": 600}}],
         "oracle": [{"name": "sg_perms", "fn": o_sg, "quick": {"n": 24}, "thorough": {"n": 120}, "search": {"n": 60}}],
         "trusted": [KERNELS["spglib"], KERNELS["float"], "float tolerance matching of positions (symprec, rounding) is not modelled"],
     },
